@@ -420,7 +420,7 @@ Definition graph_ok (q : quad) : Prop :=
   match option_map nq_graph (qd_g q), qd_g q with Some G', Some g' => rterm G' g' | None, None => True | _, _ => False end.
 Definition nq_ok (q : quad) : Prop :=
   rterm (nq_subj (qd_s q)) (qd_s q) /\ rterm (angle (qd_p q)) (qd_p q) /\ rterm (nq_obj (qd_o q)) (qd_o q) /\ graph_ok q /\
-  ets (qd_s q) = qd_s q /\ ets (qd_p q) = qd_p q /\ ets (qd_o q) = qd_o q.
+  ect (qd_s q) = qd_s q /\ ect (qd_p q) = qd_p q /\ ect (qd_o q) = qd_o q.
 
 Lemma nq_load_gen : forall q, nq_ok q -> nq_load_line (nq_core q ++ [cSP; cDOT]) = [q].
 Proof.
@@ -446,7 +446,7 @@ Qed.
 
 Definition nt_ok (q : quad) : Prop :=
   rterm (nt_subj (qd_s q)) (qd_s q) /\ rterm (angle (qd_p q)) (qd_p q) /\ rterm (nt_obj (qd_o q)) (qd_o q) /\
-  ets (qd_s q) = qd_s q /\ ets (qd_p q) = qd_p q /\ ets (qd_o q) = qd_o q.
+  ect (qd_s q) = qd_s q /\ ect (qd_p q) = qd_p q /\ ect (qd_o q) = qd_o q.
 
 Lemma nt_load_gen : forall q, nt_ok q -> is_default q = true -> nt_load_line (nt_core q ++ [cSP; cDOT]) = [q].
 Proof.
@@ -500,36 +500,55 @@ Proof.
     split; [now apply RT_qt|split; [now apply RT_qt|now apply ets_qt]].
 Qed.
 
-Lemma tquad_ok : forall q, wf_tquad q = true -> known_dd_quad (tq_den q) = false -> nq_ok (tq_den q) /\ nt_ok (tq_den q).
+Lemma ect_qt : forall a b c, qsafe (QQt a b c) = true -> ect (qrender (QQt a b c)) = qrender (QQt a b c).
 Proof.
-  intros [[[s p] o] g] Hwf Hdd. cbn [wf_tquad tq_den] in *.
-  unfold known_dd_quad, qd_s, qd_p, qd_o in Hdd. cbn [fst snd] in Hdd.
-  apply orb_false_iff in Hdd as [Hdd Hdo]. apply orb_false_iff in Hdd as [Hds Hdp].
+  intros a b c H. unfold ect. destruct (qrender_qt_shape a b c) as (_ & _ & H1 & H2). rewrite H1, H2. now apply ets_qt.
+Qed.
+
+Lemma tsubj_line : forall s, wf_tsubj s = true ->
+  rterm (nq_subj (term_str s)) (term_str s) /\ rterm (nt_subj (term_str s)) (term_str s) /\ ect (term_str s) = term_str s.
+Proof.
+  intros [v|t] H; cbn [wf_tsubj term_str] in *.
+  - split; [now apply nq_subj_rterm|split; [now apply nt_subj_rterm|]]. apply ect_plain. now destruct (wf_subj_not_qt _ H).
+  - destruct (qsafe_qt_inv t H) as (a & b & c & -> & Hs).
+    unfold nq_subj, nt_subj. rewrite qrender_prefix. cbn [orb].
+    split; [now apply RT_qt|split; [now apply RT_qt|now apply ect_qt]].
+Qed.
+
+Lemma tobj_line : forall o, wf_tobj o = true ->
+  rterm (nq_obj (term_str o)) (term_str o) /\ rterm (nt_obj (term_str o)) (term_str o) /\ ect (term_str o) = term_str o.
+Proof.
+  intros [v|t] H; cbn [wf_tobj term_str] in *.
+  - split; [now apply nq_obj_rterm|split; [now apply nt_obj_rterm|]]. apply ect_plain. now apply wf_obj_not_qt.
+  - destruct (qsafe_qt_inv t H) as (a & b & c & -> & Hs).
+    unfold nq_obj, nt_obj. rewrite qrender_prefix. cbn [orb].
+    split; [now apply RT_qt|split; [now apply RT_qt|now apply ect_qt]].
+Qed.
+
+Lemma tquad_ok : forall q, wf_tquad q = true -> nq_ok (tq_den q) /\ nt_ok (tq_den q).
+Proof.
+  intros [[[s p] o] g] Hwf. cbn [wf_tquad tq_den] in *.
   apply andb_true_iff in Hwf as [Hwf Hwg]. apply andb_true_iff in Hwf as [Hwf Hwo]. apply andb_true_iff in Hwf as [Hws Hwp].
-  destruct (tsubj_facts s Hws Hds) as (S1 & S2 & S3). destruct (tobj_facts o Hwo Hdo) as (O1 & O2 & O3).
-  pose proof (RT_angle _ (wf_iri_chars _ Hwp)) as HP. pose proof (ets_iri p Hwp Hdp) as Ep.
+  destruct (tsubj_line s Hws) as (S1 & S2 & S3). destruct (tobj_line o Hwo) as (O1 & O2 & O3).
+  pose proof (RT_angle _ (wf_iri_chars _ Hwp)) as HP.
+  assert (Ep : ect p = p) by (apply ect_plain; now apply iri_prefix).
   unfold nq_ok, nt_ok, graph_ok, qd_s, qd_p, qd_o, qd_g. cbn [fst snd].
   repeat split; try assumption.
   destruct g as [g|]; cbn [option_map]; [|exact I]. now apply nq_graph_rterm.
 Qed.
 
-Lemma tdb_ok : forall db, wf_tdb db = true -> known_dd (tden db) = false ->
-  forall q, In q (tden db) -> nq_ok q /\ nt_ok q.
+Lemma tdb_ok : forall db, wf_tdb db = true -> forall q, In q (tden db) -> nq_ok q /\ nt_ok q.
 Proof.
-  intros db Hwf Hdd q Hq. unfold tden in Hq. apply in_map_iff in Hq as (tq & <- & Hin).
-  unfold wf_tdb in Hwf. rewrite forallb_forall in Hwf. apply tquad_ok; [now apply Hwf|].
-  destruct (known_dd_quad (tq_den tq)) eqn:E; [|reflexivity].
-  assert (known_dd (tden db) = true); [|congruence].
-  unfold known_dd. apply existsb_exists. exists (tq_den tq). split; [|assumption]. unfold tden. now apply in_map.
+  intros db Hwf q Hq. unfold tden in Hq. apply in_map_iff in Hq as (tq & <- & Hin).
+  unfold wf_tdb in Hwf. rewrite forallb_forall in Hwf. apply tquad_ok. now apply Hwf.
 Qed.
 
-Lemma nq_roundtrip_quoted : forall db, wf_tdb db = true -> known_dd (tden db) = false ->
-  same_set (load_nq (gen_nq (tden db))) (tden db).
-Proof. intros db H1 H2 q. rewrite nq_roundtrip_gen; [reflexivity|]. intros q' Hq'. now apply (tdb_ok db H1 H2). Qed.
+Lemma nq_roundtrip_quoted : forall db, wf_tdb db = true -> same_set (load_nq (gen_nq (tden db))) (tden db).
+Proof. intros db H1 q. rewrite nq_roundtrip_gen; [reflexivity|]. intros q' Hq'. now apply (tdb_ok db H1). Qed.
 
-Lemma nt_roundtrip_quoted : forall db, wf_tdb db = true -> known_dd (tden db) = false ->
+Lemma nt_roundtrip_quoted : forall db, wf_tdb db = true ->
   same_set (load_nt (gen_nt (tden db))) (default_part (tden db)).
-Proof. intros db H1 H2 q. rewrite nt_roundtrip_gen; [reflexivity|]. intros q' Hq' _. now apply (tdb_ok db H1 H2). Qed.
+Proof. intros db H1 q. rewrite nt_roundtrip_gen; [reflexivity|]. intros q' Hq' _. now apply (tdb_ok db H1). Qed.
 
 (* the class C14-quoted-triple-bare-components is real: an inner literal with two spaces comes back with one *)
 Lemma qt_bad_refuted :
